@@ -40,7 +40,7 @@ type HEv struct {
 	Ev   string `json:"ev"` // inv | ret
 	Seq  int64  `json:"seq"`
 	Cl   int    `json:"cl"`
-	Call *Call  `json:"call"`
+	Call *Call  `json:"call,omitempty"` // (absent in a "restart" line)
 }
 
 type concShared struct {
